@@ -352,8 +352,52 @@ def build(seed, kind, scope):
     return text, exp_final, rec_exp, len(locs), st, order
 
 
+# names that differ only in their type suffix are different variables, in every scope (hand-computed expectations)
+SUFFIX_PROGRAMS = [
+    ('main', 'n% = 1: n& = 200000: n! = 1.5: n# = 2.25: n$ = "s"\nPRINT n%; n&; n!; n#; n$\nn& = 7: n$ = n$ + "t"\nPRINT n%; n&; n!; n#; n$\n'
+     'PRINT m%; m&; m$; LEN(m$)\nm& = 9\nPRINT m%; m&; m!\n', [1, 200000, 1.5, 2.25, 's', 1, 7, 1.5, 2.25, 'st', 0, 0, '', 0, 0, 9, 0.0]),
+    ('static-statement', 'zs\nzs\nEND\nSUB zs\nSTATIC c%, c$, c&\nPRINT c%; c$; c&\nc% = c% + 1: c$ = c$ + "x": c& = c& + 100000\nPRINT c%; c$; c&\nEND SUB\n',
+     [0, '', 0, 1, 'x', 100000, 1, 'x', 100000, 2, 'xx', 200000]),
+    ('static-procedure', 'zs\nzs\nEND\nSUB zs STATIC\nPRINT c%; c$; c#\nc% = c% + 1: c$ = c$ + "y": c# = c# + 0.5\nPRINT c%; c$; c#\nEND SUB\n',
+     [0, '', 0.0, 1, 'y', 0.5, 1, 'y', 0.5, 2, 'yy', 1.0]),
+    ('shared', 'DIM SHARED g%, g$, g#\ng% = 3: g$ = "m": g# = 0.25\nzs\nPRINT g%; g$; g#\nEND\nSUB zs\nPRINT g%; g$; g#\ng$ = g$ + "s": g# = g# * 2\nEND SUB\n',
+     [3, 'm', 0.25, 3, 'ms', 0.5]),
+    ('parameters-and-locals', 'x% = 5: x$ = "c"\nzp x%, x$\nPRINT x%; x$\nEND\nSUB zp (a%, a$)\nl% = a% + 1: l$ = a$ + "l": l& = 70000\nPRINT a%; a$; l%; l$; l&\na% = a% * 2: a$ = a$ + "!"\nEND SUB\n',
+     [5, 'c', 6, 'cl', 70000, 10, 'c!']),
+    ('arrays', 'DIM a%(2), a$(2), a#(1 TO 2)\na%(1) = 5: a$(1) = "t": a#(1) = 0.5: a%(2) = 6\nPRINT a%(1); a$(1); a#(1); a%(2); a$(2); a#(2); a%(0)\n',
+     [5, 't', 0.5, 6, '', 0.0, 0]),
+    ('function-locals', 'PRINT zf%(2); zf%(3)\nEND\nFUNCTION zf% (k%)\nSTATIC t%, t&\nt% = t% + k%: t& = t& + 1000 * k%\nu% = t%: u& = t&\nzf% = u% + u& \\ 1000\nEND FUNCTION\n',
+     [4, 10]),
+]
+
+
+def run_suffix(case):
+    st = {'layouts': 0, 'locations': 0, 'reads_compared': 0, 'byref_writes': 0, 'record_params': 0, 'array_params': 0,
+          'recursive_activations': 0, 'read_monitor_evaluations': 0, 'cell_writes_monitored': 0, 'suffix_programs': 0}
+    viol = []
+    shapes = []
+    for name, text, exp in SUFFIX_PROGRAMS:
+        for cfg in rt.CONFIGS6:
+            c = rt.compile_src(text, cfg[0], cfg[1])
+            cn = rt.cfg_name(cfg)
+            if c.status != 'ok':
+                viol.append(V(f'C04:program-rejected:{c.sig or c.err_code}', f'{cn} suffix program {name}: {c.brief()} {c.msg}', text=text))
+                break
+            r = rt.run_module(rt.load_module(c.modbytes), {}, max_ticks=20000)
+            got = [it[2] for e in r.history if e[0] == 'print' for it in (e[1] or []) if isinstance(it, list) and it[0] == 'v']
+            st['layouts'] += 1
+            st['suffix_programs'] += 1
+            st['locations'] += len(exp)
+            st['reads_compared'] += len(got)
+            shapes.append(f'suffix|{name}|{cn}')
+            if got != exp or r.outcome != ['halt']:
+                viol.append(V(f'C04:suffix-names:{name}', f'{cn}: variables that differ only in their type suffix ({name}): read {got}, '
+                              f'the source says {exp}; run ended {r.outcome}', text=text))
+    return {'viol': viol, 'stats': st, 'shape': shapes, 'nontrivial': True, 'sample': {'source': SUFFIX_PROGRAMS[1][1]}}
+
+
 def gen_cases(tier, seed):
-    cs = []
+    cs = [{'kind': 'suffix', 'seed': seed, 'scope': '-', 'cfg': [0, False]}]
     reps = 1 if tier == 'quick' else 12
     i = 0
     for rep in range(reps):
@@ -366,6 +410,8 @@ def gen_cases(tier, seed):
 
 
 def run_case(case):
+    if case['kind'] == 'suffix':
+        return run_suffix(case)
     text, exp, rec_exp, nloc, st0, order = build(case['seed'], case['kind'], case['scope'])
     st = {'layouts': 1, 'locations': nloc, 'reads_compared': 0, 'byref_writes': st0['byref_writes'],
           'record_params': st0.get('record_params', 0), 'array_params': st0.get('array_params', 0),
